@@ -73,7 +73,7 @@ func vParam(allowEch, allowFree bool) string {
 		return "ech" + string([]byte{c})
 	}
 	// free-form parameter: symbolic bytes over the alphabet {e,c,h,=,",a,1}
-	n := vInt(1, 2+vTier())
+	n := vInt(1, 2)
 	b := vBytes(n)
 	for _, c := range b {
 		vAssume(c == 'e' || c == 'c' || c == 'h' || c == '=' || c == '"' || c == 'a' || c == '1')
